@@ -207,7 +207,10 @@ impl resolvo::runtime::AsyncRuntime for ManualRt {
                 Poll::Ready(v) => return v,
                 Poll::Pending => {
                     if !self.sched.enabled.get() {
-                        panic!("future yielded while the scheduler is disabled");
+                        // a provider that never yields and a solver future that is pending: the
+                        // solver waits on something that cannot complete (NowOrNeverRuntime would
+                        // panic here)
+                        std::panic::panic_any(Deadlock);
                     }
                     // If the root task woke itself during the poll it can still make progress on
                     // its own: poll again before interfering (a real executor would).
